@@ -389,6 +389,18 @@ def knot_insertion_cases(ctx):
             P = bspline.prolongation(kv, kv2).toarray()
             if P.shape != A.shape or abs(P - A).max() > 1e-12:
                 ctx.violation('prolongation ' + sig, {'maxdiff': float(abs(P - A).max()) if P.shape == A.shape else 'shape'})
+            # knot insertion is invariant under affine maps of the parameter axis: the same case on a dyadic image far from
+            # the origin relative to the knot spacing (x -> 2^20 + 2^-10 x, exact in binary floating point) has the same
+            # matrix -- there all knots lie within the default tolerances of np.isclose / allclose of each other
+            sh, scl = 1048576.0, 0.0009765625
+            kvi = bspline.KnotVector(sh + scl * np.array(c['kv'], dtype=float), p)
+            kv2i, Mi = kvi, np.eye(kvi.numdofs)
+            for t in ts:
+                Mi = bspline.knot_insertion(kv2i, sh + scl * t).toarray() @ Mi
+                kv2i = bspline.KnotVector(np.sort(np.concatenate([kv2i.kv, [sh + scl * t]])), p)
+            if Mi.shape != A.shape or abs(Mi - A).max() > 1e-12:
+                ctx.violation('knot_insertion far-from-origin-image ' + sig,
+                              {'maxdiff': float(abs(Mi - A).max()) if Mi.shape == A.shape else 'shape', 'image': [sh, scl]})
         except Exception as ex:
             ctx.violation('exception %s in knot_insertion/prolongation %s' % (type(ex).__name__, sig), {'error': repr(ex)})
 
